@@ -1,6 +1,7 @@
 package PKGNAME
 
 import (
+	"time"
 	"encoding/json"
 	"fmt"
 	"os"
@@ -67,6 +68,26 @@ func verifRunCase(c *verifCase, fn func()) (end, msg string) {
 			}
 		}
 	}()
+	if c.End == "timeout" {
+		// predicted not to terminate: run it on the side and give it ten seconds
+		done := make(chan [2]string, 1)
+		go func() {
+			e, m := "ok", ""
+			defer func() {
+				if r := recover(); r != nil {
+					e, m = "panic", fmt.Sprint(r)
+				}
+				done <- [2]string{e, m}
+			}()
+			fn()
+		}()
+		select {
+		case r := <-done:
+			return r[0], r[1]
+		case <-time.After(10 * time.Second):
+			return "timeout", c.Msg
+		}
+	}
 	fn()
 	return "ok", ""
 }
